@@ -18,10 +18,10 @@ def M_(name, recv, *args, **kw):
 
 
 def check(ctx):
-    drawdowns(ctx)
-    ratios(ctx)
-    reporters(ctx)
-    aggregation(ctx)
+    ctx.sub(drawdowns)
+    ctx.sub(ratios)
+    ctx.sub(reporters)
+    ctx.sub(aggregation)
 
 
 # ---------------------------------------------------------------------------------------- S1, S2 (drawdowns)
